@@ -154,3 +154,12 @@ impl SonicKZG10 {
 //@rw * /let mut combined_comms: BTreeMap<Option<usize>, E::G1> = BTreeMap::new\(\);/ => let mut combined_comms: BTreeMap<Option<usize>, G1> = BTreeMap::new();
 //@end
 }
+
+//@lemma props=C02
+// C02 for SonicKZG10::check: with everything else fixed (the bucket sum does not depend on the values), two accepted value vectors that differ at position i only
+// agree at i, provided challenge i is non-zero (the relation is the text of sonic.check.relation / sonic.check_elems.relation)
+pub proof fn lemma_sonic_check_value_unique_at(ps: FS, vk: &VerifierKey, z: FS, pr: &kzg10::Proof, vs: Seq<Fr>, vs2: Seq<Fr>, s: SS, k: nat, i: int)
+    requires vk.g@ != f_zero(), vk.prepared_h@ != f_zero(), k <= vs.len(), k <= vs2.len(), 0 <= i < k, forall|j: int| 0 <= j < k && j != i ==> vs[j]@ == vs2[j]@,
+        sp_chal(s, i as nat) != f_zero(), sonic_eq(ps, vk, z, pr, sonic_values(vs, s, k)), sonic_eq(ps, vk, z, pr, sonic_values(vs2, s, k))
+    ensures vs[i]@ == vs2[i]@
+{ lemma_sonic_value_unique_at(ps, vk, z, pr, vs, vs2, s, k, i); }
